@@ -111,6 +111,9 @@ def build_formula(car, ifile, k):
 
 def run_models(c):
     car, ifile, cells, xs, ys = carrier_for(c)
+    if c.get("other"):
+        # a second Carrier is prepared for another module's grid before the first one is searched (two modules in flight)
+        carrier_for(c["other"])
     nr, nc = len(ys) - 1, len(xs) - 1
     k = c["k"]
     try:
@@ -161,6 +164,8 @@ def run_models(c):
         cls.append("origin!=0")
     if max(c["ox"], c["oy"]) >= 200000:
         cls.append("coordinates-with-7+-significant-digits")
+    if c.get("other"):
+        cls.append("another-carrier-prepared-in-between")
     if (xs[-1] - xs[0]).denominator != 1 or (ys[-1] - ys[0]).denominator != 1:
         cls.append("fractional-extent")
     if len(set(c["gx"])) > 1 or len(set(c["gy"])) > 1:
@@ -261,7 +266,15 @@ def grid_s(draw, max_dim=3, ks=(1, 2, 2, 3), max_cells_k3=9):
     oy = draw(st.sampled_from([0, 0, 0, 2, 3, 200001, 2000000]))
     occ = [[draw(_i(0, 4)) for _ in range(nc)] for _ in range(nr)]
     perm = draw(st.permutations(list(range(nc * nr)))) if draw(_i(0, 3)) == 0 else None
-    return dict(gx=gx, gy=gy, ox=ox, oy=oy, occ=occ, k=k, perm=perm)
+    c = dict(gx=gx, gy=gy, ox=ox, oy=oy, occ=occ, k=k, perm=perm)
+    if draw(_i(0, 3)) == 0:
+        # the grid of another module: this one extended by a column and a row, or an unrelated one
+        if draw(st.booleans()):
+            c["other"] = dict(gx=gx + [draw(st.sampled_from([1, 2]))], gy=gy + [draw(st.sampled_from([1, 2]))], ox=ox, oy=oy,
+                              occ=[[1] * (nc + 1) for _ in range(nr + 1)], k=1, perm=None)
+        else:
+            c["other"] = dict(gx=[draw(st.sampled_from([1, 3]))] * 2, gy=[2], ox=draw(st.sampled_from([0, 5])), oy=0, occ=[[1, 2]], k=1, perm=None)
+    return c
 
 
 @st.composite
@@ -359,7 +372,7 @@ def subchecks():
             required=("tree", "text", "module-in-several-cells", "empty-cell", "a-name-contained-in-another"),
             desc="rect_io.get_alloc + select_box: the blocks handed to the search are the allocation's cells, in order, with the selected module's ratio (0 where absent)"),
         Sub("models", run_models, strategy=grid_s(), n_quick=4000, n_thorough=40000,
-            required=("origin!=0", "fractional-extent", "non-uniform", "blocks-permuted", "k=1", "k=2", "k=3", "k=4", "coordinates-with-7+-significant-digits")),
+            required=("origin!=0", "fractional-extent", "non-uniform", "blocks-permuted", "k=1", "k=2", "k=3", "k=4", "coordinates-with-7+-significant-digits", "another-carrier-prepared-in-between")),
         Sub("shapes", run_models, enum=all_small, exhaustive=True,
             desc="every grid shape up to 3x3 (quick) / 4x4 (thorough) for k = 1..3 on five coordinate systems (origins 0 / non-0, steps 0.5-2.5)"),
         Sub("solve", run_solve, strategy=solve_s(), n_quick=3000, n_thorough=40000,
